@@ -498,19 +498,34 @@ class Driver:
             return False
         return not self.prefixes or any(p.startswith(head) or head.startswith(p) for p in self.prefixes)
 
+    def entry_units(self):
+        """The interpreter mode is the slow one for the entry points (no JIT to pay, every call interpreted): its entry
+        cases are dealt out per object.  A compiled mode keeps them in one process (they share their specialisations)."""
+        if self.mode != "nojit":
+            return ["entries"]
+        from checks import armlib
+        arms = armlib.ALL_ARMS if self.tier == "thorough" else armlib.QUICK_ARMS
+        return ["entries:tm"] + ["entries:arm:" + a for a in arms] + ["entries:sp:%s@%s" % (s, b) for s in ("std", "small") for b in SP_BASES]
+
     def mine(self, unit):
-        """Sharding of one mode over processes: units (kernels, 'entries') are dealt out greedily by estimated JIT cost."""
+        """Sharding of one mode over processes: units (kernels, entry-point groups) are dealt out greedily by estimated cost."""
         if self.shard is None:
             return True
         i, n = self.shard
-        units = sorted([fn for _, fn in self.src] + ["entries"], key=lambda u: (-COST.get(u, 2.0), u))
+
+        def cost(u):
+            return COST.get(u, 4.0 if u.startswith("entries:") else 2.0)
+        units = sorted([fn for _, fn in self.src] + self.entry_units(), key=lambda u: (-cost(u), u))
         load = [0.0] * n
         for u in units:
             k = min(range(n), key=lambda q: (load[q], q))
-            load[k] += COST.get(u, 2.0)
+            load[k] += cost(u)
             if u == unit:
                 return k == i
         return False
+
+    def mine_entries(self, obj):
+        return self.mine("entries" if self.mode != "nojit" else "entries:" + obj)
 
     def call(self, cid, fn, extra=None, post=None, pre=None):
         """Run fn() and write its record.  `pre()` prepares the object (its kernels are not counted as reached by the
@@ -996,21 +1011,23 @@ def run_entries(d):
     P = Pal(d.tier, d.seed)
     # --- transforms and helpers
     t0 = time.time()
-    for sid, name, fn in tm_entries(P):
-        cid = "e|tm|%s|%s|-" % (sid, name)
-        if d.want(cid):
-            d.call(cid, fn)
-    d.t_parts["e.tm"] = round(time.time() - t0, 3)
+    if d.mine_entries("tm"):
+        for sid, name, fn in tm_entries(P):
+            cid = "e|tm|%s|%s|-" % (sid, name)
+            if d.want(cid):
+                d.call(cid, fn)
+        d.t_parts["e.tm"] = round(time.time() - t0, 3)
     # --- arms
     names = armlib.QUICK_ARMS if d.tier != "thorough" else armlib.ALL_ARMS
     table = arm_entries()
     from basic_robotics.kinematics import Arm, SP
-    d.emit({"id": "meta|entries", "st": "meta", "arm_table": [n for n, _, _ in table], "sp_table": [n for n, _, _ in sp_entries()],
-            "arm_uncovered": [k for k in public_methods(Arm) if k not in covered_methods("arm", table)],
-            "sp_uncovered": [k for k in public_methods(SP) if k not in covered_methods("sp", sp_entries())]})
+    if d.mine_entries("tm"):
+        d.emit({"id": "meta|entries", "st": "meta", "arm_table": [n for n, _, _ in table], "sp_table": [n for n, _, _ in sp_entries()],
+                "arm_uncovered": [k for k in public_methods(Arm) if k not in covered_methods("arm", table)],
+                "sp_uncovered": [k for k in public_methods(SP) if k not in covered_methods("sp", sp_entries())]})
     for an in names:
         t0 = time.time()
-        if not d.group_wanted("e|arm:%s|" % an):
+        if not d.group_wanted("e|arm:%s|" % an) or not d.mine_entries("arm:" + an):
             continue
         built = build_object(d, "e|arm:%s|*|build|-" % an, lambda: _build_arm(an, d.seed))
         if built is None:           # the constructor raised in this mode: recorded, compare() charges it to every case of the arm
@@ -1038,7 +1055,7 @@ def run_entries(d):
     for sn in ("std", "small"):
         for bn in SP_BASES:
             t0 = time.time()
-            if not d.group_wanted("e|sp:%s@%s|" % (sn, bn)):
+            if not d.group_wanted("e|sp:%s@%s|" % (sn, bn)) or not d.mine_entries("sp:%s@%s" % (sn, bn)):
                 continue
             pristine = build_object(d, "e|sp:%s@%s|*|build|-" % (sn, bn), lambda: build_sp(sn, bn))
             if pristine is None:
@@ -1100,7 +1117,7 @@ def main(argv=None):
         if a.part in ("all", "kernels") and not only_e:
             d.kernels()
         t1 = time.time()
-        if a.part in ("all", "entries") and not only_k and d.mine("entries"):
+        if a.part in ("all", "entries") and not only_k:
             d.entries()
         d.emit({"id": "meta|end", "st": "meta", "cases": d.n, "wall_kernels": round(t1 - t0, 2), "wall_entries": round(time.time() - t1, 2),
                 "t_kernels": d.t_parts})
